@@ -14,11 +14,34 @@ from __future__ import annotations
 import numbers
 from typing import Any, Literal
 
+import numpy as np
+
 import ufl
 from ufl.checks import is_python_scalar, is_scalar_constant_expression
 from ufl.core.expr import Expr
 from ufl.domain import Mesh, sort_domains
 from ufl.protocols import id_or_none
+
+
+def _metadata_equal(a, b) -> bool:
+    """Compare metadata values, which may contain numpy arrays."""
+    if isinstance(a, dict) and isinstance(b, dict):
+        return a.keys() == b.keys() and all(_metadata_equal(a[k], b[k]) for k in a)
+    if isinstance(a, list | tuple) and isinstance(b, list | tuple):
+        return (
+            type(a) is type(b)
+            and len(a) == len(b)
+            and all(_metadata_equal(x, y) for x, y in zip(a, b))
+        )
+    if isinstance(a, np.ndarray) or isinstance(b, np.ndarray):
+        return (
+            isinstance(a, np.ndarray)
+            and isinstance(b, np.ndarray)
+            and a.shape == b.shape
+            and a.dtype == b.dtype
+            and bool(np.array_equal(a, b))
+        )
+    return bool(a == b)
 
 # Export list for ufl.classes
 __all_classes__ = ["Integral"]
@@ -195,7 +218,7 @@ class Integral:
             and self._ufl_domain == other._ufl_domain
             and self._subdomain_id == other._subdomain_id
             and self._integrand == other._integrand
-            and self._metadata == other._metadata
+            and _metadata_equal(self._metadata, other._metadata)
             and id_or_none(self._subdomain_data) == id_or_none(other._subdomain_data)
             and self._extra_domain_integral_type_map == other._extra_domain_integral_type_map
         )
